@@ -87,6 +87,13 @@ def gen_template(rng, k):
         res['res%d' % i] = r
     if rng.random() < 0.1:
         res['notype'] = {'Properties': {'Name': 'x'}}
+    if k % 3 == 1:
+        # resources that contribute nothing (no Properties, Properties that is not a struct, no Type) BEFORE, between and after the others
+        extra = [('bare%d' % k, {'Type': 'AWS::SNS::Topic'}), ('odd%d' % k, {'Type': 'AWS::Lambda::Function', 'Properties': 'n/a'}), ('untyped%d' % k, {'Properties': {'Name': 'x'}})]
+        items = list(res.items())
+        for j, e in enumerate(extra[:1 + k % 3]):
+            items.insert(min(len(items), j * 2), e)
+        res = dict(items)
     return {'Resources': res}, kind
 
 
